@@ -52,13 +52,13 @@ func c07IL2TP(entry string, n []uint64, f []string) string {
 	switch err {
 	case nil:
 	case ErrPPPFrameShort:
-		return "err 3"
+		return "err"
 	case pppdisp.ErrFrameShort:
-		return "err 1"
+		return "err"
 	case pppdisp.ErrFrameLengthMismatch:
-		return "err 2"
+		return "err"
 	default:
-		return "err 9"
+		return "err"
 	}
 	if len(log) == 0 {
 		return "ok 0"
